@@ -103,6 +103,11 @@ loop:
 				continue loop
 			}
 		}
+		if after.Contains(innerRing[i]) {
+			// non-Alphabet member becomes an Alphabet one and takes
+			// place of the replaced key, do not list it twice
+			continue
+		}
 		result = append(result, innerRing[i])
 	}
 
